@@ -384,6 +384,12 @@ def run(ctx: Ctx) -> None:
                     muts.append(s_[:b] + " " + s_[a:b] + s_[b:])
             plan.append(("parse", d, chunk + muts))
             plan.append(("generate", d, chunk, sorted(set(main_targets + [d])) if quick else all_dialects()))
+    from vlib.grammar_clauses import clause_statements
+
+    cl = [sql for sql, tags in clause_statements()]
+    for i in range(0, len(cl), 200):
+        plan.append(("generate", "", cl[i:i + 200], main_targets if quick else all_dialects()))
+        plan.append(("parse", "", cl[i:i + 200]))
     targets = all_dialects()
     for src in (GEN_SOURCES if quick else dialects):
         k1 = [s for c, s, t in statements(src, 1)]
@@ -413,7 +419,7 @@ def run(ctx: Ctx) -> None:
                     "late / inside a speculative branch / twice, empty), x max_errors {1,3}; generation of G_core k<=1 trees from 7 source "
                     "dialects into all 34 targets x 4 levels x max_unsupported {1,3}; every statement of tests/dialects/*.py in its own dialect "
                     "(as written + every 1-token deletion / duplication for the parse relation; generated into 12 main targets in quick, all "
-                    "in thorough); reuse histories of length 3 on one Parser. "
+                    "in thorough); G_clauses (every subset of optional clauses) parsed in base and generated into the same targets; reuse histories of length 3 on one Parser. "
                     "non-trivial = inputs for which WARN logged errors / generations that recorded unsupported messages.",
             "inputs_with_error_inside_speculative_branch": res["spec"],
             "generations_with_unsupported": res["gen_unsupported"],
